@@ -12,7 +12,7 @@
     collection (which calls [handle_commitment_signed_batch] itself), then
     [gossip_timestamp_filter], then the generic dispatch. The message classification the path
     branches on is [mkind]. *)
-Require Import LdkV.Prim.U64.
+Require Import LdkV.Prim.U64 LdkV.Gen.NoiseConsts.
 From Coq Require Import List.
 Import ListNotations.
 Require Import LdkV.Model.Noise.
@@ -29,6 +29,7 @@ Inductive mkind :=
                  (* [msg.message_type == Some(CommitmentSigned::TYPE)] *)
 | KCommitmentSigned (channel_id : bytes)
 | KGossipFilter
+| KPing (ponglen : Z)
 | KOther (ty : Z).
 
 Inductive dres :=
@@ -72,8 +73,12 @@ Inductive event :=
 | EvNoiseDone (their_node_id : bytes)  (* handshake finished; OUR [Init] is enqueued here *)
 | EvFrame (m : bytes)           (* an authenticated plaintext handed to [wire::read] *)
 | EvIgnored (warn : bool)       (* decode error ignored, possibly answering with a warning *)
+| EvReply (m : bytes)           (* a reply message enqueued for the peer (pong) *)
 | EvInit                        (* THEIR [Init] accepted: [peer_connected] on every handler *)
 | EvDeliver.                    (* the message reached the handler dispatch *)
+
+(** [msgs::Pong { byteslen }] with its type: 2 + 2 + byteslen bytes *)
+Definition pong_msg (byteslen : Z) : bytes := [0; 19] ++ be16 byteslen ++ repeat 0 (Z.to_nat byteslen).
 
 Section Gate.
   Variable decode : bytes -> dres.
@@ -125,6 +130,15 @@ Section Gate.
           | Some _ => ([EvFrame m], None)            (* unexpected message during a batch *)
           | None => ([EvFrame m], Some g)            (* only sets the sync status *)
           end
+        | KPing ponglen =>
+          (* [Message::Ping]: answered with a pong of [ponglen] bytes iff [ponglen] is below the
+             limit, so that the pong still fits a frame *)
+          match g_batch g with
+          | Some _ => ([EvFrame m], None)
+          | None =>
+            if ponglen <? PING_PONGLEN_LIMIT then ([EvFrame m; EvDeliver; EvReply (pong_msg ponglen)], Some g)
+            else ([EvFrame m; EvDeliver], Some g)
+          end
         | KOther _ =>
           match g_batch g with
           | Some _ => ([EvFrame m], None)
@@ -155,6 +169,7 @@ Definition order_step (phase : Z) (e : event) : option Z :=
   | EvNoiseDone _ => if phase =? 0 then Some 1 else None
   | EvFrame _ => if 1 <=? phase then Some phase else None
   | EvIgnored _ => if 1 <=? phase then Some phase else None
+  | EvReply _ => if phase =? 2 then Some 2 else None
   | EvInit => if phase =? 1 then Some 2 else None
   | EvDeliver => if phase =? 2 then Some 2 else None
   end.
